@@ -142,10 +142,15 @@ def gen_trial(meta, rng, nthreads, maxops=7, tiny=False):
             ops = threads[ta]
             ops.insert(rng.randint(0, len(ops)), ('rmobj', 5))
             shared_w[0] = False
-        if rng.random() < 0.85:
+        if rng.random() < 0.65:
             ops = threads[tb]
             ops.insert(rng.randint(0, len(ops)), ('rmexp', 15))
             shared_w[1] = False
+        else:
+            # the requirement stays alive to the end: other threads poll it while the object is being destroyed
+            for _ in range(rng.randint(1, 2)):
+                ops = threads[rng.randrange(nthreads)]
+                ops.insert(rng.randint(0, len(ops)), ('qexp', 15))
     # a mock destroyed by one thread while other threads release (not call) expectations that were placed on it,
     # one of them saturated: the expectation objects are not the mock, so both are legal concurrently
     shared_m = None
